@@ -89,23 +89,23 @@ theorem constant_iff_no_var (M : RModel) (W : WF M) (v : Nat) :
 -- ------------------------------------------------------------------------------------------------ get_value
 /-- `get_value` terminates: with `|variables| + 1` levels of recursion (or more) it never runs out of fuel — the Python
     code never reaches `RecursionError` on a well-formed model — and more fuel changes no value -/
-theorem getValue_fuel (M : RModel) (W : WF M) (v : Nat) :
-    getValue M v ≠ .error .fuel ∧
-    ∀ F, M.st.live.length < F → ∀ q, getValueFuel M F v = .ok q ↔ getValue M v = .ok q := by
-  have h0 := getValueFuel_good W (M.st.live.length + 1) (Nat.lt_succ_self _) v
+theorem getValue_fuel (fn : Interp) (M : RModel) (W : WF M) (v : Nat) :
+    getValue fn M v ≠ .error .fuel ∧
+    ∀ F, M.st.live.length < F → ∀ q, getValueFuel fn M F v = .ok q ↔ getValue fn M v = .ok q := by
+  have h0 := getValueFuel_good fn W (M.st.live.length + 1) (Nat.lt_succ_self _) v
   refine ⟨fun hc => ?_, fun F hF q => ?_⟩
   · unfold getValue at hc; rw [hc] at h0; exact h0.1 rfl
-  · have h1 := getValueFuel_good W F hF v
+  · have h1 := getValueFuel_good fn W F hF v
     unfold getValue
     constructor
     · intro hq
       rw [hq] at h1
-      rcases hr : getValueFuel M (M.st.live.length + 1) v with err | q'
+      rcases hr : getValueFuel fn M (M.st.live.length + 1) v with err | q'
       · rw [hr] at h0; exact absurd h1 (h0.2 q)
       · rw [hr] at h0; rw [den_unique h0 h1]
     · intro hq
       rw [hq] at h0
-      rcases hr : getValueFuel M F v with err | q'
+      rcases hr : getValueFuel fn M F v with err | q'
       · rw [hr] at h1; exact absurd h0 (h1.2 q)
       · rw [hr] at h1; rw [den_unique h1 h0]
 
@@ -113,20 +113,20 @@ theorem getValue_fuel (M : RModel) (W : WF M) (v : Nat) :
     `get_value(v)` returns `q` iff evaluating the definition of `v` recursively — states at their initial values, the
     free variable at 0, a derivative standing for the right-hand side of its ODE — gives `q`; and when the definitions
     give no number (no definition, a state without initial value, a division by zero) it raises -/
-theorem getValue_denotes (M : RModel) (W : WF M) (v : Nat) (q : Rat) :
-    getValue M v = .ok q ↔ Den M (.v v) q := by
-  have h0 := getValueFuel_good W (M.st.live.length + 1) (Nat.lt_succ_self _) v
+theorem getValue_denotes (fn : Interp) (M : RModel) (W : WF M) (v : Nat) (q : Rat) :
+    getValue fn M v = .ok q ↔ Den fn M (.v v) q := by
+  have h0 := getValueFuel_good fn W (M.st.live.length + 1) (Nat.lt_succ_self _) v
   unfold getValue
   constructor
   · intro hq; rw [hq] at h0; exact h0
   · intro hd
-    rcases hr : getValueFuel M (M.st.live.length + 1) v with err | q'
+    rcases hr : getValueFuel fn M (M.st.live.length + 1) v with err | q'
     · rw [hr] at h0; exact absurd hd (h0.2 q)
     · rw [hr] at h0; rw [den_unique h0 hd]
 
 /-- the value does not depend on the order in which `_get_value` visits the dependencies, on the memo, or on which
     equation comes first: it is a function of the definitions (`Den` is single-valued) -/
-theorem value_unique (M : RModel) (v : Nat) (q q' : Rat) (h : Den M (.v v) q) (h' : Den M (.v v) q') : q = q' :=
+theorem value_unique (fn : Interp) (M : RModel) (v : Nat) (q q' : Rat) (h : Den fn M (.v v) q) (h' : Den fn M (.v v) q') : q = q' :=
   den_unique h h'
 
 -- ------------------------------------------------------------------------------------------------ history independence
@@ -134,16 +134,16 @@ theorem value_unique (M : RModel) (v : Nat) (q q' : Rat) (h : Den M (.v v) q) (h
     graph reads, in any order) that arrive at the same variables and equations give the same answers to all six role
     queries and the same `get_value` for every variable. Corollary of the C08 invariant (`inv_reachable`): the
     definition maps and a cached graph are functions of the content. -/
-theorem roles_history_independent (mc₁ mc₂ : Option String) (ops₁ ops₂ : List Op) (rhs : Nat → Expr)
+theorem roles_history_independent (fn : Interp) (mc₁ mc₂ : Option String) (ops₁ ops₂ : List Op) (rhs : Nat → Expr)
     (h : content (run mc₁ ops₁) = content (run mc₂ ops₂)) :
-    roles ⟨run mc₁ ops₁, rhs⟩ = roles ⟨run mc₂ ops₂, rhs⟩ :=
-  roles_of_content (C08.inv_reachable mc₁ ops₁) (C08.inv_reachable mc₂ ops₂) h rhs
+    roles fn ⟨run mc₁ ops₁, rhs⟩ = roles fn ⟨run mc₂ ops₂, rhs⟩ :=
+  roles_of_content fn (C08.inv_reachable mc₁ ops₁) (C08.inv_reachable mc₂ ops₂) h rhs
 
 /-- in particular every answer is the one a freshly built model with the same content gives -/
-theorem roles_as_fresh (mc : Option String) (ops : List Op) (rhs : Nat → Expr) :
-    roles ⟨run mc ops, rhs⟩ = roles ⟨fresh (content (run mc ops)), rhs⟩ := by
+theorem roles_as_fresh (fn : Interp) (mc : Option String) (ops : List Op) (rhs : Nat → Expr) :
+    roles fn ⟨run mc ops, rhs⟩ = roles fn ⟨fresh (content (run mc ops)), rhs⟩ := by
   have i₁ := C08.inv_reachable mc ops
-  refine roles_congr rhs rfl i₁.eq.varDef i₁.eq.odeDef ?_ ?_ ?_
+  refine roles_congr fn rhs rfl i₁.eq.varDef i₁.eq.odeDef ?_ ?_ ?_
   · exact ((sameButTypes_eraseTypes _).initOf (s := run mc ops) (s' := fresh (content (run mc ops)))).symm
   · exact ((sameButTypes_eraseTypes _).orderOf (s := run mc ops) (s' := fresh (content (run mc ops)))).symm
   · have := congrArg Obs.graph (C08.coherent mc ops)
@@ -154,12 +154,12 @@ theorem roles_as_fresh (mc : Option String) (ops : List Op) (rhs : Nat → Expr)
     re-add equations in different orders produce) give the same states in the same order, the same free variable, the
     same `is_state` / `is_constant`, the same lists of derivatives and derived quantities, and `get_value` returns the
     same number for every variable. -/
-theorem roles_equation_order_independent (M₁ M₂ : RModel) (W₁ : WF M₁) (W₂ : WF M₂) (h : SameSet M₁ M₂) :
+theorem roles_equation_order_independent (fn : Interp) (M₁ M₂ : RModel) (W₁ : WF M₁) (W₂ : WF M₂) (h : SameSet M₁ M₂) :
     stateVars M₁ = stateVars M₂ ∧ freeVar M₁ = freeVar M₂ ∧ isState M₁ = isState M₂ ∧ isConstant M₁ = isConstant M₂ ∧
     (∀ l₁ l₂, derivatives M₁ = .ok l₁ → derivatives M₂ = .ok l₂ → l₁ = l₂) ∧
     (∀ l₁ l₂, derivedQuantities M₁ = .ok l₁ → derivedQuantities M₂ = .ok l₂ → l₁ = l₂) ∧
-    (∀ v q, getValue M₁ v = .ok q ↔ getValue M₂ v = .ok q) ∧
-    (∀ i q, Den M₁ i q ↔ Den M₂ i q) :=
+    (∀ v q, getValue fn M₁ v = .ok q ↔ getValue fn M₂ v = .ok q) ∧
+    (∀ i q, Den fn M₁ i q ↔ Den fn M₂ i q) :=
   ⟨stateVars_sameSet W₁ W₂ h, freeVar_sameSet W₁ W₂ h, isState_sameSet W₁.inv.eq W₂.inv.eq h,
    isConstant_sameSet W₁ W₂ h, fun _ _ => derivatives_sameSet W₁ W₂ h, fun _ _ => derivedQuantities_sameSet W₁ W₂ h,
    getValue_sameSet W₁ W₂ h, den_sameSet W₁ W₂ h⟩
@@ -232,13 +232,14 @@ example : ((demoM.st.equations.filterMap (fun e => lhsNode e.lhs)).map (nodeStr 
 example : stateVars demoM = [0, 1] ∧ freeVar demoM = some 2 ∧ derivatives demoM = .ok [(0, 2), (1, 2)] ∧
     derivedQuantities demoM = .ok [4, 5] ∧ (demoM.st.live.filter (isConstant demoM)) = [3] := by decide +kernel
 
-example : (demoM.st.live.map (getValue demoM)) =
-    [.ok (5/2), .ok 1, .ok 0, .ok 3, .ok (17/2), .ok (47/2)] := by decide +kernel
+example (fn : Interp) : (demoM.st.live.map (getValue fn demoM)) =
+    [.ok (5/2), .ok 1, .ok 0, .ok 3, .ok (17/2), .ok (47/2)] := by
+  exact of_decide_eq_true (by with_unfolding_all rfl)      -- evaluation never asks `fn`: no opaque term in the demo
 
 /-- hence (by `getValue_denotes`) `y = dx/dt + 1` denotes 3·2.5 + 0 + 1 = 8.5 and `w = dz/dt + y` denotes 2·7.5 + 8.5 -/
-example : Den demoM (.v 4) (17/2) ∧ Den demoM (.v 5) (47/2) :=
-  ⟨(getValue_denotes demoM demo_wf 4 _).mp (by decide +kernel),
-   (getValue_denotes demoM demo_wf 5 _).mp (by decide +kernel)⟩
+example (fn : Interp) : Den fn demoM (.v 4) (17/2) ∧ Den fn demoM (.v 5) (47/2) :=
+  ⟨(getValue_denotes fn demoM demo_wf 4 _).mp (of_decide_eq_true (by with_unfolding_all rfl)),
+   (getValue_denotes fn demoM demo_wf 5 _).mp (of_decide_eq_true (by with_unfolding_all rfl))⟩
 
 /-- a second history: equations in another order, `y` removed and re-introduced, a rejected duplicate definition — the
     same role answers for the variables both models share -/
@@ -255,10 +256,10 @@ def demoOps2 : List Op :=
    .addEquation ⟨1, .deriv 0 2 1, [.var 3, .var 0, .var 2], [.var 3, .var 0, .var 2], false⟩,
    .addEquation ⟨4, .var 5, [.deriv 1 2, .var 4], [.deriv 1 2, .var 4], false⟩]
 
-example : let M2 : RModel := ⟨run none demoOps2, demoRhs⟩
+example (fn : Interp) : let M2 : RModel := ⟨run none demoOps2, demoRhs⟩
     stateVars M2 = [0, 1] ∧ freeVar M2 = some 2 ∧ derivatives M2 = .ok [(0, 2), (1, 2)] ∧
-    derivedQuantities M2 = .ok [4, 5] ∧ M2.st.live.map (getValue M2) = demoM.st.live.map (getValue demoM) := by
-  decide +kernel
+    derivedQuantities M2 = .ok [4, 5] ∧ M2.st.live.map (getValue fn M2) = demoM.st.live.map (getValue fn demoM) := by
+  exact of_decide_eq_true (by with_unfolding_all rfl)
 
 /-- the second history satisfies the hypotheses of `roles_equation_order_independent` together with the first -/
 example : WF ⟨run none demoOps2, demoRhs⟩ ∧ SameSet demoM ⟨run none demoOps2, demoRhs⟩ :=
@@ -286,28 +287,81 @@ example : WF ⟨run none demoOps2, demoRhs⟩ ∧ SameSet demoM ⟨run none demo
         rw [List.getElem?_eq_none (by omega), List.getElem?_eq_none (by omega)],
      eqs := by decide +kernel }⟩
 
+-- ------------------------------------------------------------------------------------------------ opaque terms
+/-- a (3), b with `a = 3` and `b = exp(a) * 2`: the right-hand side of `b` holds an uninterpreted application (what the
+    harness sends for `exp(a)`: its printed form and its one reference) -/
+def opqOps : List Op :=
+  [.addVariable "a" none none, .addVariable "b" none none,
+   .addEquation ⟨0, .var 0, [], [], true⟩, .addEquation ⟨1, .var 1, [.var 0], [.var 0], false⟩]
+
+def opqRhs : Nat → Expr
+  | 1 => .bin .mul (Expr.ofWire "exp(v0)" [.var 0]) (.num 2)
+  | _ => .num 3
+
+def opqM : RModel := ⟨run none opqOps, opqRhs⟩
+
+theorem opq_wf : WF opqM where
+  inv := C08.inv_reachable none opqOps
+  refs := by decide +kernel
+  oneBvar := by decide +kernel
+  freeOk := by decide +kernel
+  live := by decide +kernel
+  closed := by decide +kernel
+  acyclic := ⟨fun n => match n with | .var 1 => 1 | _ => 0, by decide +kernel⟩
+  inits := by decide +kernel
+
+/-- **for EVERY interpretation** under which `exp(a)` has a value `r` at `a = 3`, the definitions denote `r * 2` for `b`,
+    and hence (by `getValue_denotes`, right to left) the model of the code returns it - `fn` stays unknown -/
+theorem opaque_value (fn : Interp) (r : Rat) (h : fn "exp(v0)" [3] = some r) :
+    Den fn opqM (.v 1) (r * 2) ∧ getValue fn opqM 1 = .ok (r * 2) := by
+  have ha : Den fn opqM (.v 0) 3 :=
+    Den.defn (r := .num 3) (by decide +kernel) (by with_unfolding_all rfl) (Den.num 3)
+  have hb : Den fn opqM (.v 1) (r * 2) :=
+    Den.defn (r := opqRhs 1) (by decide +kernel) (by with_unfolding_all rfl)
+      (Den.bin (den_opq_iff.mpr ⟨[3], Dens.cons (Den.var ha) Dens.nil, h⟩) (Den.num 2) rfl)
+  exact ⟨hb, (getValue_denotes fn opqM opq_wf 1 _).mpr hb⟩
+
+/-- … and where the interpretation has no value (SymPy: `zoo`, `nan`, a complex number) `get_value(b)` raises -/
+theorem opaque_no_value (fn : Interp) (h : fn "exp(v0)" [3] = none) (q : Rat) : getValue fn opqM 1 ≠ .ok q := by
+  intro hq
+  have hd := (getValue_denotes fn opqM opq_wf 1 q).mp hq
+  have ha : Den fn opqM (.v 0) 3 :=
+    Den.defn (r := .num 3) (by decide +kernel) (by with_unfolding_all rfl) (Den.num 3)
+  have hr : varRhs opqM 1 = some (opqRhs 1) := by with_unfolding_all rfl
+  cases hd with
+  | state hs _ => exact absurd hs (by decide +kernel)
+  | free _ hr' _ => rw [hr] at hr'; cases hr'
+  | defn _ hr' hd =>
+    rw [hr] at hr'; cases hr'
+    obtain ⟨p, _, hp, _, _⟩ := den_bin_iff.mp hd
+    obtain ⟨vals, hv, hf⟩ := den_opq_iff.mp hp
+    obtain ⟨p0, ps, rfl, h0, hs⟩ := dens_cons_iff.mp hv
+    rw [dens_nil_iff.mp hs, den_unique (den_var_iff.mp h0) ha, h] at hf
+    cases hf
+
 -- ------------------------------------------------------------------------------------------------ before the fixes
 /-- `_get_value` as it was: a definition that mentions a derivative raises (`Can't calculate derivative wrt 0`) although
     the definitions denote 8.5 — the repaired evaluator returns it -/
-theorem today_derivative_raises :
-    getValueToday demoM 4 = .error .derivativeWrtNumber ∧ getValueToday demoM 5 = .error .derivativeWrtNumber ∧
-    getValue demoM 4 = .ok (17/2) := by decide +kernel
+theorem today_derivative_raises (fn : Interp) :
+    getValueToday fn demoM 4 = .error .derivativeWrtNumber ∧ getValueToday fn demoM 5 = .error .derivativeWrtNumber ∧
+    getValue fn demoM 4 = .ok (17/2) := by exact of_decide_eq_true (by with_unfolding_all rfl)
 
 /-- … and a variable defined as another variable (`y = x`) raises `AttributeError` although it denotes 2.5 -/
-theorem today_alias_raises :
+theorem today_alias_raises (fn : Interp) :
     let ops : List Op := [.addVariable "x" none (some (5/2)), .addVariable "t" none none, .addVariable "y" none none,
       .addEquation ⟨0, .deriv 0 1 1, [], [], true⟩, .addEquation ⟨1, .var 2, [.var 0], [.var 0], false⟩]
     let M : RModel := ⟨run none ops, fun tok => if tok = 1 then .var 0 else .num 1⟩
-    getValueToday M 2 = .error .floatHasNoAtoms ∧ getValue M 2 = .ok (5/2) := by decide +kernel
+    getValueToday fn M 2 = .error .floatHasNoAtoms ∧ getValue fn M 2 = .ok (5/2) := by
+  exact of_decide_eq_true (by with_unfolding_all rfl)
 
 /-- outside well-formedness the answers do depend on more than the set of equations: with a definition for the free
     variable, `get_value(t)` is that definition while every other right-hand side sees `t = 0` (the preloaded memo) -/
-theorem free_variable_with_definition :
+theorem free_variable_with_definition (fn : Interp) :
     let ops : List Op := [.addVariable "x" none (some 1), .addVariable "t" none none, .addVariable "y" none none,
       .addEquation ⟨0, .deriv 0 1 1, [.var 1], [.var 1], false⟩, .addEquation ⟨1, .var 1, [], [], true⟩,
       .addEquation ⟨2, .var 2, [.var 1], [.var 1], false⟩]
     let M : RModel := ⟨run none ops, fun tok => if tok = 0 then .var 1 else if tok = 1 then .num 5 else
       .bin .add (.var 1) (.num 1)⟩
-    getValue M 1 = .ok 5 ∧ getValue M 2 = .ok 1 := by decide +kernel
+    getValue fn M 1 = .ok 5 ∧ getValue fn M 2 = .ok 1 := by exact of_decide_eq_true (by with_unfolding_all rfl)
 
 end Cellml.Props.C10
